@@ -457,7 +457,17 @@ Definition step_checks (cfg : config) (ms : mstate) (o : op) (outs : list out) (
              end
            else [])
         else [] in
-      c02 ++ c05 ++ c03r ++ c03s ++ c20
+      (* a controlled agent consumes a deferred nomination when the pair's check is answered: it cannot be
+         replayed by a later response against a newer nomination *)
+      let c20c :=
+        if resp_ok && negb (sn_ctl prev) then
+          [ ck "C20.deferred_nomination_consumed"
+               (forallb (fun p => match pair_in prev (ps_id p) with
+                                  | Some q => if ps_resp_recv q <? ps_resp_recv p then negb (ps_nom_on_succ p) else true
+                                  | None => true
+                                  end) (sn_pairs sn)) ]
+        else [] in
+      c02 ++ c05 ++ c03r ++ c03s ++ c20 ++ c20c
     | InData lh src p =>
       if negb live || negb (local_listed prev lh) then
         [ ck "C07.dead_socket_inert" (match outs with [] => snap_eqb prev sn | _ => false end) ]
